@@ -218,7 +218,7 @@ CasesOf(Family_) ==
              \cup On(GlueTrees(Size), {"exprstmt"})
              \cup On(LinkChain({Id("a")}, Size), {"exprstmt"}))
     [] Family = "skel" ->
-         Adm(On(T1("a") \cup SpecialLeaves \cup (IF Size >= 2 THEN Mk1(SpecialLeaves) \cup T1s("a") ELSE {}), SkelNames))
+         Adm(On(T1("a") \cup SpecialLeaves \cup (IF Size >= 2 THEN Mk1(SpecialLeaves) ELSE {}), SkelNames))
 
 ASSUME Family \in {"expr", "spine", "skel"}
 
@@ -268,7 +268,10 @@ CaseOK(p) ==
   IF RoundTrip(p) /\ RoundTripFull(p) /\ MinIsShorter(p) THEN TRUE
   ELSE Print(<<"ROUNDTRIP-FAIL", p, Read(p.min, CaseCtx(p)), Read(p.full, TopCtx(LComma, FALSE, "none"))>>, FALSE)
 
-ASSUME TLCSet(1, LET S == SetToSeq(CasesOf(Family)) IN [i \in 1..Len(S) |-> Prep(S[i])])
+(* expr is sharded while it is built (T2); the other families by index *)
+ShardSeq(S) == IF NShards = 1 \/ Family = "expr" THEN S
+               ELSE LET I == SetToSeq({j \in 1..Len(S) : j % NShards = Shard}) IN [k \in 1..Len(I) |-> S[I[k]]]
+ASSUME TLCSet(1, LET S == ShardSeq(SetToSeq(CasesOf(Family))) IN [i \in 1..Len(S) |-> Prep(S[i])])
 ASSUME TLCSet(2, LET S == TLCGet(1) IN UNION {S[i].labels : i \in 1..Len(S)})
 ASSUME PrintT(<<"NCASES", Len(TLCGet(1))>>)
 Init == cs = 0 /\ done = "no"
